@@ -24,29 +24,37 @@ def csep_csv_rows(events, catalog_id, frac="auto"):
              "" if catalog_id is None else str(catalog_id), str(e[0])] for e in events]
 
 
-def write_csep_csv(path, events, catalog_id=0, header=True, frac="auto"):
+def write_csep_csv(path, events, catalog_id=0, header=True, frac="auto", eol="\r\n", blank_ids=False):
+    """blank_ids: leave the optional event_id column empty (the reader then numbers the events itself)"""
     with open(path, "w", newline="") as f:
-        w = csv.writer(f, delimiter=",")
+        w = csv.writer(f, delimiter=",", lineterminator=eol)
         if header:
             w.writerow(["lon", "lat", "mag", "time_string", "depth", "catalog_id", "event_id"])
         for r in csep_csv_rows(events, catalog_id, frac):
+            if blank_ids:
+                r[6] = ""
             w.writerow(r)
 
 
-def write_catalog_forecast(path, catalogs, encoding, header=False, frac="auto"):
+def write_catalog_forecast(path, catalogs, encoding, header=False, frac="auto", eol="\r\n", final_newline=True):
     """catalogs: list (index = catalog id) of event lists; encoding[i] in {'placeholder','omit'} for empty catalogs
     (the final id is always written). Rows: lon,lat,mag,time_string,depth,catalog_id,event_id; placeholder: ,,,,,id,"""
     n = len(catalogs)
+    buf = io.StringIO()
+    w = csv.writer(buf, delimiter=",", lineterminator=eol)
+    if header:
+        w.writerow(["lon", "lat", "mag", "time_string", "depth", "catalog_id", "event_id"])
+    for i, evs in enumerate(catalogs):
+        if evs:
+            for r in csep_csv_rows(evs, i, frac):
+                w.writerow(r)
+        elif i == n - 1 or encoding[i] == "placeholder":
+            w.writerow(["", "", "", "", "", str(i), ""])
+    text = buf.getvalue()
+    if not final_newline and text.endswith(eol):
+        text = text[:-len(eol)]
     with open(path, "w", newline="") as f:
-        w = csv.writer(f, delimiter=",")
-        if header:
-            w.writerow(["lon", "lat", "mag", "time_string", "depth", "catalog_id", "event_id"])
-        for i, evs in enumerate(catalogs):
-            if evs:
-                for r in csep_csv_rows(evs, i, frac):
-                    w.writerow(r)
-            elif i == n - 1 or encoding[i] == "placeholder":
-                w.writerow(["", "", "", "", "", str(i), ""])
+        f.write(text)
 
 
 # ------------------------------------------------------------------ ZMAP (CSEP1 ascii): whitespace separated numeric columns
